@@ -148,6 +148,17 @@ def to_spec(o):
     return ("opaque", type(o).__name__, repr(o))
 
 
+def sort_maps(s):
+    """Spec with the entries of every keyword mapping sorted by key (to_spec's normal form)."""
+    if not isinstance(s, tuple) or not s or not isinstance(s[0], str):
+        return s
+    if s[0] in ("map", "dict"):
+        return (s[0], *sorted((k, sort_maps(v)) for k, v in s[1:]))
+    if s[0] == "array":
+        return (s[0], s[1], *[sort_maps(c) for c in s[2:]])
+    return (s[0], *[sort_maps(c) if isinstance(c, tuple) else c for c in s[1:]])
+
+
 def strict_equal(a, b) -> bool:
     return to_spec(a) == to_spec(b)
 
